@@ -499,7 +499,7 @@ func (e *engine) Execute(raw json.RawMessage) (vd harness.Verdict) {
 		total += len(ops)
 	}
 	s := sched.New(sched.Config{Policy: c.Policy, SwitchPct: c.SwitchPct, YieldPct: c.YieldPct, PCTDepth: c.PCTDepth,
-		PCTHorizon: 200 * (total + 1), Salt: c.Salt, Budget: 20000*(total+1) + 100000}, tp)
+		PCTHorizon: 200 * (total + 1), Salt: c.Salt, Budget: 4000*(total+1) + 50000}, tp)
 	if tf := os.Getenv("C10_TRACE"); tf != "" {
 		if f, err := os.Create(tf + w.sfx); err == nil {
 			defer f.Close()
